@@ -66,7 +66,21 @@ func genC10a(t *rapid.T) c10aCase {
 	class := map[string]bool{}
 	n := rapid.IntRange(0, 8).Draw(t, "items")
 	for i := 0; i < n; i++ {
-		switch rapid.IntRange(0, 10).Draw(t, "kind") {
+		switch rapid.IntRange(0, 11).Draw(t, "kind") {
+		case 11: // a file announced with size 0 (or 1) and then chunks that carry more than that
+			name := []byte("z.bin")
+			size := uint32(rapid.IntRange(0, 1).Draw(t, "zsize"))
+			c.Stream = append(c.Stream, frame(0x1210, ref.Body1210(c.Dialect, []byte("T"), []byte("A"), ref.AlarmSign(c.Dialect, []byte("T"), [6]byte{}, 0, 0), 0, []ref.AttachFile{{Name: name, Size: size}}))...)
+			if rapid.Bool().Draw(t, "z1211") {
+				c.Stream = append(c.Stream, frame(0x1211, ref.Body1211(name, 0, size))...)
+			}
+			for k, nc := 0, rapid.IntRange(1, 2).Draw(t, "zchunks"); k < nc; k++ {
+				c.Stream = append(c.Stream, ref.Chunk(c.Dialect, name, uint32(k*10), rapid.SliceOfN(rapid.Byte(), 0, 30).Draw(t, "zdata"))...)
+			}
+			if rapid.Bool().Draw(t, "z1212") {
+				c.Stream = append(c.Stream, frame(0x1212, ref.Body1211(name, 0, size))...)
+			}
+			class["announced_empty_file_then_data"] = true
 		case 0:
 			k := rapid.IntRange(1, 60).Draw(t, "rn")
 			c.Stream = append(c.Stream, rapid.SliceOfN(rapid.Byte(), k, k).Draw(t, "random")...)
@@ -96,6 +110,20 @@ func genC10a(t *rapid.T) c10aCase {
 				b := ref.Body1210(c.Dialect, []byte("T"), []byte("A"), ref.AlarmSign(c.Dialect, []byte("T"), [6]byte{}, 0, 0), 0, []ref.AttachFile{{Name: []byte("f"), Size: 0xffffffff}})
 				b[len(b)-7] = rapid.SampledFrom([]byte{0, 2, 0xff}).Draw(t, "count")
 				b[len(b)-6] = rapid.SampledFrom([]byte{0, 1, 0xff, 200}).Draw(t, "namelen")
+				if rapid.Bool().Draw(t, "long_entries") {
+					// the count is over-declared by 1..3 while the entries that are present are long enough to satisfy any
+					// "count x minimal entry size" plausibility test: the list ends exactly at the end of the body
+					var files []ref.AttachFile
+					for k, nf := 0, rapid.IntRange(1, 3).Draw(t, "real_entries"); k < nf; k++ {
+						files = append(files, ref.AttachFile{Name: rapid.SliceOfN(rapid.ByteRange(0x61, 0x7a), 0, 24).Draw(t, "entry_name"), Size: uint32(rapid.IntRange(0, 70000).Draw(t, "entry_size"))})
+					}
+					b = ref.Body1210(c.Dialect, []byte("T"), []byte("A"), ref.AlarmSign(c.Dialect, []byte("T"), [6]byte{}, 0, 0), 0, files)
+					tail := 0
+					for _, f := range files {
+						tail += 1 + len(f.Name) + 4
+					}
+					b[len(b)-tail-1] = byte(len(files) + rapid.IntRange(1, 3).Draw(t, "over_declared_by"))
+				}
 				c.Stream = append(c.Stream, frame(0x1210, b)...)
 			case 1:
 				c.Stream = append(c.Stream, frame(0x1211, ref.Body1211([]byte("ghost"), 0, rapid.SampledFrom([]uint32{0, 1, 0xffffffff}).Draw(t, "sz")))...)
